@@ -59,49 +59,183 @@ theorem jleaves_wrapOp (op : Option Op) (v : JVal) :
     jvals (wrapOp op v) = jvals v := by
   cases op <;> simp [wrapOp, jleaves, jleavesO, jvals, jvalsO]
 
-/-! ### plain value lists are written element by element -/
+/-- the JSON of one item that is not a header item -/
+def itemJ (o : Opts) (enc : Enc) : Item → JVal
+  | .val n => jsonOf o enc n
+  | _ => .null
 
-theorem windowZ_plain (zs : List (ItemTag × JVal)) (h : ∀ p ∈ zs, ∃ k, p.1 = ItemTag.keyT k) :
-    windowZ zs 0 = zs.map (·.2) := by
-  induction zs with
-  | nil => rfl
-  | cons p rest ih =>
-    obtain ⟨tag, jv⟩ := p
-    obtain ⟨k, hk⟩ := h (tag, jv) (by simp)
-    simp only at hk
-    subst hk
-    have hr := ih (fun q hq => h q (by simp [hq]))
-    cases rest with
-    | nil => simp [windowZ]
-    | cons q rest2 =>
-      obtain ⟨tag2, jv2⟩ := q
-      obtain ⟨k2, hk2⟩ := h (tag2, jv2) (by simp)
-      simp only at hk2
-      subst hk2
-      simp only [windowZ, List.map_cons] at hr ⊢
-      rw [hr]
-
-theorem tag_val (enc : Enc) (n : Node) : ∃ k, Item.tag enc (.val n) = ItemTag.keyT k := by
-  cases n <;> exact ⟨_, rfl⟩
-
-theorem jsonItems_plain (o : Opts) (enc : Enc) (items : List Item) (h : plainItems items = true) :
-    ∀ p ∈ jsonItems o enc items, ∃ k, p.1 = ItemTag.keyT k := by
+theorem jsonItems_map (o : Opts) (enc : Enc) (items : List Item) (h : runItems items = true) :
+    jsonItems o enc items = items.map (fun x => (x.tag enc, itemJ o enc x)) := by
   induction items with
-  | nil => intro p hp; simp [jsonItems] at hp
+  | nil => rfl
   | cons x xs ih =>
-    simp only [plainItems, Bool.and_eq_true] at h
-    intro p hp
-    simp only [jsonItems, List.mem_append] at hp
-    rcases hp with hp | hp
-    · cases x with
+    simp only [runItems, Bool.and_eq_true] at h
+    cases x with
+    | val n => simp [jsonItems, jsonItem, itemJ, ih h.2]
+    | hdr s b => simp [runItem] at h
+    | paramTok u s => simp [runItem] at h
+    | opTok op => simp [jsonItems, jsonItem, itemJ, Item.tag, ih h.2]
+    | mixedTok => simp [jsonItems, jsonItem, itemJ, Item.tag, ih h.2]
+
+theorem tag_op (enc : Enc) (op : Op) : Item.tag enc (.opTok op) = .opT op := rfl
+theorem tag_mixed (enc : Enc) : Item.tag enc .mixedTok = .mixedT := rfl
+theorem tag_hdr (enc : Enc) (s : Bytes) (b : Node) : Item.tag enc (.hdr s b) = .keyT (some (decode enc s)) := rfl
+theorem tag_param (enc : Enc) (u : Bool) (s : Bytes) : Item.tag enc (.paramTok u s) = .keyT (some (decode enc s)) := rfl
+
+section Window
+variable (rd : JVal → List JVal) (Rel : List JVal → List JVal → Prop)
+  (hrefl : ∀ a, Rel a a) (happ : ∀ a a' b b', Rel a a' → Rel b b' → Rel (a ++ b) (a' ++ b'))
+  (kp : Bytes → List JVal) (opp : Op → List JVal) (enc : Enc)
+  (hobj : ∀ k op v, rd (.obj [(k, wrapOp (if op = Op.eq then none else some op) v)]) = kp k ++ opp op ++ rd v)
+include hrefl happ hobj
+
+theorem scalar_tag_key (x : Item) (h : isScalarItem x = true) : (x.tag enc).key = keyString enc x := by
+  cases x with
+  | val n => cases n <;> simp [isScalarItem] at h <;> rfl
+  | _ => simp [isScalarItem] at h
+
+/-- the array serializer's output, read with `rd`, is the run rule's reading of the items -/
+theorem window_run (J : Item → JVal) (Lv : Item → List JVal) (items : List Item) : ∀ (s : Nat),
+    (∀ x ∈ items, isValItem x = true → Rel (rd (J x)) (Lv x)) → okRun items s = true →
+    Rel ((windowZ (items.map (fun x => (x.tag enc, J x))) s).flatMap rd)
+        (runG kp opp enc (items.map (fun x => (x, Lv x))) s) := by
+  induction items with
+  | nil => intro s _ _; cases s <;> exact hrefl []
+  | cons x xs ih =>
+    intro s hval hok
+    have hval' : ∀ y ∈ xs, isValItem y = true → Rel (rd (J y)) (Lv y) := fun y hy => hval y (by simp [hy])
+    cases s with
+    | succ s =>
+      simp only [List.map_cons, windowZ, runG, okRun] at hok ⊢
+      exact ih s hval' hok
+    | zero =>
+      cases x with
+      | mixedTok =>
+        simp only [List.map_cons, tag_op, tag_mixed, tag_hdr, tag_param, windowZ, runG, okRun] at hok ⊢
+        exact ih 0 hval' hok
       | val n =>
-        simp only [jsonItem, List.mem_singleton] at hp
-        rw [hp]; exact tag_val enc n
-      | hdr s b => simp [plainItem] at h
-      | paramTok u s => simp [plainItem] at h
-      | opTok op => simp [plainItem] at h
-      | mixedTok => simp [plainItem] at h
-    · exact ih h.2 p hp
+        cases xs with
+        | nil =>
+          obtain ⟨k, hk⟩ : ∃ k, Item.tag enc (.val n) = ItemTag.keyT k := by cases n <;> exact ⟨_, rfl⟩
+          simp only [List.map_cons, List.map_nil, hk, windowZ, runG, List.flatMap_cons, List.flatMap_nil]
+          exact happ _ _ _ _ (hval _ (by simp) rfl) (hrefl [])
+        | cons y ys =>
+          obtain ⟨k, hk⟩ : ∃ k, Item.tag enc (.val n) = ItemTag.keyT k := by cases n <;> exact ⟨_, rfl⟩
+          cases y with
+          | opTok op =>
+            cases ys with
+            | nil => simp [okRun, isValItem] at hok
+            | cons v vs =>
+              simp only [okRun, Bool.and_eq_true] at hok
+              have hkey := scalar_tag_key rd Rel hrefl happ kp opp enc hobj (.val n) hok.1.1
+              rw [hk] at hkey
+              simp only [List.map_cons, hk, tag_op, tag_mixed, tag_hdr, tag_param, windowZ, runG, List.flatMap_cons, hobj]
+              rw [hkey]
+              have hv := hval v (by simp) hok.1.2
+              have hrec := ih 2 hval' hok.2
+              simp only [List.map_cons, tag_op] at hrec
+              exact happ _ _ _ _ (happ _ _ _ _ (hrefl _) hv) hrec
+          | val m =>
+            obtain ⟨k2, hk2⟩ : ∃ k, Item.tag enc (.val m) = ItemTag.keyT k := by cases m <;> exact ⟨_, rfl⟩
+            simp only [okRun, isValItem, Bool.true_and] at hok
+            have hrec := ih 0 hval' hok
+            simp only [List.map_cons, hk, hk2] at hrec ⊢
+            simp only [windowZ, runG, List.flatMap_cons]
+            exact happ _ _ _ _ (hval _ (by simp) rfl) hrec
+          | mixedTok =>
+            simp only [okRun, isValItem, Bool.true_and] at hok
+            have hrec := ih 0 hval' hok
+            simp only [List.map_cons, hk, tag_op, tag_mixed, tag_hdr, tag_param] at hrec ⊢
+            simp only [windowZ, runG, List.flatMap_cons]
+            exact happ _ _ _ _ (hval _ (by simp) rfl) hrec
+          | hdr s b =>
+            simp only [okRun, isValItem, Bool.true_and] at hok
+            have hrec := ih 0 hval' hok
+            simp only [List.map_cons, hk, tag_op, tag_mixed, tag_hdr, tag_param] at hrec ⊢
+            simp only [windowZ, runG, List.flatMap_cons]
+            exact happ _ _ _ _ (hval _ (by simp) rfl) hrec
+          | paramTok u s =>
+            simp only [okRun, isValItem, Bool.true_and] at hok
+            have hrec := ih 0 hval' hok
+            simp only [List.map_cons, hk, tag_op, tag_mixed, tag_hdr, tag_param] at hrec ⊢
+            simp only [windowZ, runG, List.flatMap_cons]
+            exact happ _ _ _ _ (hval _ (by simp) rfl) hrec
+      | opTok op =>
+        -- a lone operator token: excluded by `okRun`
+        cases xs with
+        | nil => simp [okRun, isValItem] at hok
+        | cons y ys =>
+          cases y with
+          | opTok op2 => cases ys <;> simp [okRun, isValItem, isScalarItem] at hok
+          | _ => simp [okRun, isValItem] at hok
+      | hdr s b =>
+        cases xs with
+        | nil => simp [okRun, isValItem] at hok
+        | cons y ys =>
+          cases y with
+          | opTok op2 => cases ys <;> simp [okRun, isValItem, isScalarItem] at hok
+          | _ => simp [okRun, isValItem] at hok
+      | paramTok u s =>
+        cases xs with
+        | nil => simp [okRun, isValItem] at hok
+        | cons y ys =>
+          cases y with
+          | opTok op2 => cases ys <;> simp [okRun, isValItem, isScalarItem] at hok
+          | _ => simp [okRun, isValItem] at hok
+end Window
+
+
+theorem jleavesL_flatMap (xs : List JVal) : jleavesL xs = xs.flatMap jleaves := by
+  induction xs with
+  | nil => rfl
+  | cons x r ih => simp [jleavesL, ih]
+
+theorem jvalsL_flatMap (xs : List JVal) : jvalsL xs = xs.flatMap jvals := by
+  induction xs with
+  | nil => rfl
+  | cons x r ih => simp [jvalsL, ih]
+
+theorem dleavesItems_map (rm : Bool) (o : Opts) (enc : Enc) (items : List Item) :
+    dleavesItems rm o enc items = items.map (fun x => (x, dleavesItem rm o enc x)) := by
+  induction items with
+  | nil => rfl
+  | cons x xs ih => simp [dleavesItems, ih]
+
+theorem dvalsItems_map (o : Opts) (enc : Enc) (items : List Item) :
+    dvalsItems o enc items = items.map (fun x => (x, dvalsItem o enc x)) := by
+  induction items with
+  | nil => rfl
+  | cons x xs ih => simp [dvalsItems, ih]
+
+theorem hobj_leaves (k : Bytes) (op : Op) (v : JVal) :
+    jleaves (.obj [(k, wrapOp (if op = Op.eq then none else some op) v)]) = [JVal.str k] ++ opLeaf op ++ jleaves v := by
+  by_cases h : op = Op.eq
+  · simp [h, wrapOp, jleaves, jleavesO, opLeaf]
+  · simp [h, wrapOp, jleaves, jleavesO, opLeaf]
+
+theorem hobj_vals (k : Bytes) (op : Op) (v : JVal) :
+    jvals (.obj [(k, wrapOp (if op = Op.eq then none else some op) v)]) = ([] : List JVal) ++ [] ++ jvals v := by
+  by_cases h : op = Op.eq
+  · simp [h, wrapOp, jvals, jvalsO]
+  · simp [h, wrapOp, jvals, jvalsO]
+
+/-- a value list, Preserve / KeyValuePairs reading -/
+theorem items_leaves (o : Opts) (enc : Enc) (rm : Bool) (items : List Item) (hr : runItems items = true)
+    (hok : okRun items 0 = true)
+    (hval : ∀ x ∈ items, isValItem x = true → jleaves (itemJ o enc x) = dleavesItem rm o enc x) :
+    jleavesL (windowZ (jsonItems o enc items) 0) = runLeaves enc (dleavesItems rm o enc items) 0 := by
+  rw [jleavesL_flatMap, jsonItems_map o enc items hr, dleavesItems_map]
+  exact window_run jleaves Eq (fun _ => rfl) (fun a a' b b' h1 h2 => by rw [h1, h2])
+    (fun k => [JVal.str k]) opLeaf enc hobj_leaves (itemJ o enc) (dleavesItem rm o enc) items 0 hval hok
+
+/-- a value list, Group reading -/
+theorem items_vals (o : Opts) (enc : Enc) (items : List Item) (hr : runItems items = true)
+    (hok : okRun items 0 = true)
+    (hval : ∀ x ∈ items, isValItem x = true → (jvals (itemJ o enc x)).Perm (dvalsItem o enc x)) :
+    (jvalsL (windowZ (jsonItems o enc items) 0)).Perm (runVals enc (dvalsItems o enc items) 0) := by
+  rw [jvalsL_flatMap, jsonItems_map o enc items hr, dvalsItems_map]
+  exact window_run jvals List.Perm (fun _ => List.Perm.refl _) (fun a a' b b' h1 h2 => h1.append h2)
+    (fun _ => []) (fun _ => []) enc hobj_vals (itemJ o enc) (dvalsItem o enc) items 0 hval hok
 
 /-! ### the shapes by mode -/
 
@@ -137,48 +271,52 @@ variable (o : Opts) (enc : Enc) (hd : o.dup = .preserve)
 include hd
 
 mutual
-theorem leaves_preserve : (n : Node) → plainNode n = true → jleaves (jsonOf o enc n) = dleaves true o enc n
+theorem leaves_preserve : (n : Node) → runNode n = true → jleaves (jsonOf o enc n) = dleaves true o enc n
   | .scalar q s, _ => by
     simp only [jsonOf, dleaves]
     exact (jleaves_scalar _ (narrowScalar_scalar o enc q s)).1
   | .arr m items, h => by
-    simp only [plainNode] at h
+    simp only [runNode, Bool.and_eq_true] at h
     simp only [jsonOf, dleaves]
-    rw [arrayShape_nokvp o (by simp [hd]), windowZ_plain _ (jsonItems_plain o enc items h)]
-    simpa [jleaves] using leavesItems_preserve items h
+    rw [arrayShape_nokvp o (by simp [hd])]
+    simp only [jleaves]
+    exact items_leaves o enc true items h.1 h.2 (leavesItems_preserve items h.1)
   | .obj flag m fields rest, h => by
-    simp only [plainNode, Bool.and_eq_true] at h
-    have hf := leavesFields_preserve fields h.1
-    have hr := leavesItems_preserve rest h.2
+    simp only [runNode, Bool.and_eq_true] at h
+    have hf := leavesFields_preserve fields h.1.1
     cases rest with
     | nil =>
       simp only [jsonOf, dleaves]
       rw [objectShape_nokvp o (by simp [hd]), entriesByMode_nogroup o enc (by simp [hd])]
       simp [remainderOf, jleaves, hf]
     | cons x xs =>
+      have hr := items_leaves o enc true (x :: xs) h.1.2 h.2 (leavesItems_preserve (x :: xs) h.1.2)
       simp only [jsonOf, dleaves]
-      rw [objectShape_nokvp o (by simp [hd]), entriesByMode_nogroup o enc (by simp [hd]),
-        windowZ_plain _ (jsonItems_plain o enc (x :: xs) h.2)]
-      simp [remainderOf, jleaves, jleavesO_append, jleavesO, hf, hr]
+      rw [objectShape_nokvp o (by simp [hd]), entriesByMode_nogroup o enc (by simp [hd])]
+      simp only [remainderOf, jleaves, jleavesO_append, jleavesO, hf, List.append_nil, if_true]
+      rw [hr]; simp
   | .header s body, h => by
-    simp only [plainNode] at h
+    simp only [runNode] at h
     simp [jsonOf, dleaves, jleaves, jleavesO, leaves_preserve body h]
-theorem leavesItems_preserve : (items : List Item) → plainItems items = true →
-    jleavesL ((jsonItems o enc items).map (·.2)) = dleavesItems true o enc items
-  | [], _ => by simp [jsonItems, jleavesL, dleavesItems]
-  | .val n :: xs, h => by
-    simp only [plainItems, plainItem, Bool.and_eq_true] at h
-    simp [jsonItems, jsonItem, jleavesL, dleavesItems, dleavesItem, leaves_preserve n h.1, leavesItems_preserve xs h.2]
-  | .hdr _ _ :: _, h => by simp [plainItems, plainItem] at h
-  | .paramTok _ _ :: _, h => by simp [plainItems, plainItem] at h
-  | .opTok _ :: _, h => by simp [plainItems, plainItem] at h
-  | .mixedTok :: _, h => by simp [plainItems, plainItem] at h
-theorem leavesFields_preserve : (fields : List Field) → plainFields fields = true →
+theorem leavesItems_preserve : (items : List Item) → runItems items = true →
+    ∀ x ∈ items, isValItem x = true → jleaves (itemJ o enc x) = dleavesItem true o enc x
+  | [], _ => by intro x hx; simp at hx
+  | y :: ys, h => by
+    simp only [runItems, Bool.and_eq_true] at h
+    intro x hx hv
+    simp only [List.mem_cons] at hx
+    rcases hx with hx | hx
+    · subst hx
+      cases x with
+      | val n => simp only [runItem] at h; simpa [itemJ, dleavesItem] using leaves_preserve n h.1
+      | _ => simp [isValItem] at hv
+    · exact leavesItems_preserve ys h.2 x hx hv
+theorem leavesFields_preserve : (fields : List Field) → runFields fields = true →
     jleavesO ((jsonFields o enc fields).map (fun x => (keyJson enc x.1, wrapOp x.2.1 x.2.2))) =
       dleavesFields true o enc fields
   | [], _ => by simp [jsonFields, jleavesO, dleavesFields]
   | .mk k op v :: fs, h => by
-    simp only [plainFields, plainField, Bool.and_eq_true] at h
+    simp only [runFields, runField, Bool.and_eq_true] at h
     simp [jsonFields, jsonField, jleavesO, dleavesFields, dleavesField, (jleaves_wrapOp op _).1,
       leaves_preserve v h.1, leavesFields_preserve fs h.2]
     cases op <;> rfl
@@ -204,27 +342,104 @@ theorem jleavesL_pairs (es : List (Bytes × JVal)) :
   | nil => rfl
   | cons x xs ih => obtain ⟨k, v⟩ := x; simp [jleavesL, jleavesO, jleaves, ih]
 
+theorem ft_runG (kp : Bytes → List JVal) (opp : Op → List JVal) (enc : Enc) (ds : List (Item × List JVal)) :
+    ∀ (s : Nat), ft (runG kp opp enc ds s) =
+      runG (fun k => ft (kp k)) (fun op => ft (opp op)) enc (ds.map (fun p => (p.1, ft p.2))) s := by
+  induction ds with
+  | nil => intro s; cases s <;> rfl
+  | cons p rest ih =>
+    intro s
+    obtain ⟨x, lv⟩ := p
+    cases s with
+    | succ s => simp only [List.map_cons, runG]; exact ih s
+    | zero =>
+      cases x with
+      | mixedTok => simp only [List.map_cons, runG]; exact ih 0
+      | val n =>
+        cases rest with
+        | nil => simp [runG, ft_append]
+        | cons q r2 =>
+          obtain ⟨y, ly⟩ := q
+          cases y with
+          | opTok op =>
+            cases r2 with
+            | nil =>
+              have := ih 0
+              simp only [List.map_cons, List.map_nil, runG, ft_append] at this ⊢
+              rw [this]
+            | cons q3 r3 =>
+              obtain ⟨v, vl⟩ := q3
+              have := ih 2
+              simp only [List.map_cons, runG, ft_append] at this ⊢
+              rw [this]
+          | _ =>
+            have := ih 0
+            simp only [List.map_cons, runG, ft_append] at this ⊢
+            rw [this]
+      | _ =>
+        cases rest with
+        | nil => simp [runG, ft_append]
+        | cons q r2 =>
+          obtain ⟨y, ly⟩ := q
+          cases y with
+          | opTok op =>
+            cases r2 with
+            | nil =>
+              have := ih 0
+              simp only [List.map_cons, List.map_nil, runG, ft_append] at this ⊢
+              rw [this]
+            | cons q3 r3 =>
+              obtain ⟨v, vl⟩ := q3
+              have := ih 2
+              simp only [List.map_cons, runG, ft_append] at this ⊢
+              rw [this]
+          | _ =>
+            have := ih 0
+            simp only [List.map_cons, runG, ft_append] at this ⊢
+            rw [this]
+
+theorem hobj_ft (k : Bytes) (op : Op) (v : JVal) :
+    ft (jleaves (.obj [(k, wrapOp (if op = Op.eq then none else some op) v)])) =
+      ft [JVal.str k] ++ ft (opLeaf op) ++ ft (jleaves v) := by
+  rw [hobj_leaves, ft_append, ft_append]
+
+theorem ft_flatMap (xs : List JVal) : ft (xs.flatMap jleaves) = xs.flatMap (fun x => ft (jleaves x)) := by
+  induction xs with
+  | nil => rfl
+  | cons x r ih => simp only [List.flatMap_cons, ft_append, ih]
+
+/-- a value list, KeyValuePairs reading -/
+theorem items_leaves_ft (o : Opts) (enc : Enc) (items : List Item) (hr : runItems items = true)
+    (hok : okRun items 0 = true)
+    (hval : ∀ x ∈ items, isValItem x = true → ft (jleaves (itemJ o enc x)) = ft (dleavesItem false o enc x)) :
+    ft (jleavesL (windowZ (jsonItems o enc items) 0)) = ft (runLeaves enc (dleavesItems false o enc items) 0) := by
+  rw [jleavesL_flatMap, ft_flatMap, jsonItems_map o enc items hr, dleavesItems_map]
+  unfold runLeaves
+  rw [ft_runG, List.map_map]
+  exact window_run (fun x => ft (jleaves x)) Eq (fun _ => rfl) (fun a a' b b' h1 h2 => by rw [h1, h2])
+    (fun k => ft [JVal.str k]) (fun op => ft (opLeaf op)) enc hobj_ft (itemJ o enc)
+    (fun x => ft (dleavesItem false o enc x)) items 0 hval hok
+
 section Kvp
 variable (o : Opts) (enc : Enc) (hd : o.dup = .kvp)
 include hd
 
 mutual
-theorem leaves_kvp : (n : Node) → plainNode n = true →
+theorem leaves_kvp : (n : Node) → runNode n = true →
     ft (jleaves (jsonOf o enc n)) = ft (dleaves false o enc n)
   | .scalar q s, _ => by
     simp only [jsonOf, dleaves]
     rw [(jleaves_scalar _ (narrowScalar_scalar o enc q s)).1]
   | .arr m items, h => by
-    simp only [plainNode] at h
+    simp only [runNode, Bool.and_eq_true] at h
     simp only [jsonOf, dleaves]
-    rw [arrayShape_kvp o hd, windowZ_plain _ (jsonItems_plain o enc items h)]
+    rw [arrayShape_kvp o hd]
     simp only [jleaves, jleavesO, List.append_nil, List.cons_append, List.nil_append]
     rw [ft_typed3 _ _ _ (by decide) (by decide) (by decide)]
-    exact leavesItems_kvp items h
+    exact items_leaves_ft o enc items h.1 h.2 (leavesItems_kvp items h.1)
   | .obj flag m fields rest, h => by
-    simp only [plainNode, Bool.and_eq_true] at h
-    have hf := leavesFields_kvp fields h.1
-    have hr := leavesItems_kvp rest h.2
+    simp only [runNode, Bool.and_eq_true] at h
+    have hf := leavesFields_kvp fields h.1.1
     cases rest with
     | nil =>
       simp only [jsonOf, dleaves]
@@ -233,38 +448,39 @@ theorem leaves_kvp : (n : Node) → plainNode n = true →
       rw [ft_typed3 _ _ _ (by decide) (by decide) (by decide), jleavesL_pairs]
       exact hf
     | cons x xs =>
+      have hr := items_leaves_ft o enc (x :: xs) h.1.2 h.2 (leavesItems_kvp (x :: xs) h.1.2)
       simp only [jsonOf, dleaves]
-      rw [objectShape_kvp o hd, entriesByMode_nogroup o enc (by simp [hd]),
-        windowZ_plain _ (jsonItems_plain o enc (x :: xs) h.2)]
+      rw [objectShape_kvp o hd, entriesByMode_nogroup o enc (by simp [hd])]
       simp only [remainderOf, jleaves, jleavesO, List.append_nil, List.cons_append, List.nil_append]
       rw [ft_typed3 _ _ _ (by decide) (by decide) (by decide), jleavesL_append, jleavesL_pairs]
       simp only [jleavesL, jleaves, List.append_nil, Bool.false_eq_true, if_false, List.nil_append]
       rw [ft_append, ft_append, hf, hr]
   | .header s body, h => by
-    simp only [plainNode] at h
+    simp only [runNode] at h
     have hb := leaves_kvp body h
     simp only [jsonOf, dleaves, jleaves, jleavesO, List.append_nil]
     rw [show (JVal.str (decode enc s) :: jleaves (jsonOf o enc body)) = [JVal.str (decode enc s)] ++ jleaves (jsonOf o enc body) from rfl,
       show (JVal.str (decode enc s) :: dleaves false o enc body) = [JVal.str (decode enc s)] ++ dleaves false o enc body from rfl,
       ft_append, ft_append, hb]
-theorem leavesItems_kvp : (items : List Item) → plainItems items = true →
-    ft (jleavesL ((jsonItems o enc items).map (·.2))) = ft (dleavesItems false o enc items)
-  | [], _ => by simp [jsonItems, jleavesL, dleavesItems]
-  | .val n :: xs, h => by
-    simp only [plainItems, plainItem, Bool.and_eq_true] at h
-    simp only [jsonItems, jsonItem, List.map_append, List.map_cons, List.map_nil, List.cons_append, List.nil_append,
-      jleavesL, dleavesItems, dleavesItem]
-    rw [ft_append, ft_append, leaves_kvp n h.1, leavesItems_kvp xs h.2]
-  | .hdr _ _ :: _, h => by simp [plainItems, plainItem] at h
-  | .paramTok _ _ :: _, h => by simp [plainItems, plainItem] at h
-  | .opTok _ :: _, h => by simp [plainItems, plainItem] at h
-  | .mixedTok :: _, h => by simp [plainItems, plainItem] at h
-theorem leavesFields_kvp : (fields : List Field) → plainFields fields = true →
+theorem leavesItems_kvp : (items : List Item) → runItems items = true →
+    ∀ x ∈ items, isValItem x = true → ft (jleaves (itemJ o enc x)) = ft (dleavesItem false o enc x)
+  | [], _ => by intro x hx; simp at hx
+  | y :: ys, h => by
+    simp only [runItems, Bool.and_eq_true] at h
+    intro x hx hv
+    simp only [List.mem_cons] at hx
+    rcases hx with hx | hx
+    · subst hx
+      cases x with
+      | val n => simp only [runItem] at h; simpa [itemJ, dleavesItem] using leaves_kvp n h.1
+      | _ => simp [isValItem] at hv
+    · exact leavesItems_kvp ys h.2 x hx hv
+theorem leavesFields_kvp : (fields : List Field) → runFields fields = true →
     ft (jleavesO ((jsonFields o enc fields).map (fun x => (keyJson enc x.1, wrapOp x.2.1 x.2.2)))) =
       ft (dleavesFields false o enc fields)
   | [], _ => by simp [jsonFields, jleavesO, dleavesFields]
   | .mk k op v :: fs, h => by
-    simp only [plainFields, plainField, Bool.and_eq_true] at h
+    simp only [runFields, runField, Bool.and_eq_true] at h
     have hv := leaves_kvp v h.1
     have hr := leavesFields_kvp fs h.2
     simp only [jsonFields, jsonField, List.map_cons, jleavesO, dleavesFields, dleavesField, (jleaves_wrapOp op _).1]
@@ -335,19 +551,19 @@ variable (o : Opts) (enc : Enc) (hd : o.dup = .group)
 include hd
 
 mutual
-theorem vals_group : (n : Node) → plainNode n = true → (jvals (jsonOf o enc n)).Perm (dvals o enc n)
+theorem vals_group : (n : Node) → runNode n = true → (jvals (jsonOf o enc n)).Perm (dvals o enc n)
   | .scalar q s, _ => by
     simp only [jsonOf, dvals]
     rw [(jleaves_scalar _ (narrowScalar_scalar o enc q s)).2]
   | .arr m items, h => by
-    simp only [plainNode] at h
+    simp only [runNode, Bool.and_eq_true] at h
     simp only [jsonOf, dvals]
-    rw [arrayShape_nokvp o (by simp [hd]), windowZ_plain _ (jsonItems_plain o enc items h)]
-    simpa [jvals] using valsItems_group items h
+    rw [arrayShape_nokvp o (by simp [hd])]
+    simp only [jvals]
+    exact items_vals o enc items h.1 h.2 (valsItems_group items h.1)
   | .obj flag m fields rest, h => by
-    simp only [plainNode, Bool.and_eq_true] at h
-    have hf := valsFields_group fields h.1
-    have hr := valsItems_group rest h.2
+    simp only [runNode, Bool.and_eq_true] at h
+    have hf := valsFields_group fields h.1.1
     have hes : (jvalsO (entriesByMode o enc (jsonFields o enc fields))).Perm (dvalsFields o enc fields) := by
       rw [entriesByMode_group o enc hd, jvalsO_groups]
       exact ((stableGroupBy_perm _ _ _ (Nat.le_refl _)).flatMap_right _).trans hf
@@ -355,32 +571,34 @@ theorem vals_group : (n : Node) → plainNode n = true → (jvals (jsonOf o enc 
     | nil =>
       simp only [jsonOf, dvals]
       rw [objectShape_nokvp o (by simp [hd])]
-      simpa [remainderOf, jvals, dvalsItems] using hes
+      simpa [remainderOf, jvals, dvalsItems, runVals, runG] using hes
     | cons x xs =>
+      have hr := items_vals o enc (x :: xs) h.1.2 h.2 (valsItems_group (x :: xs) h.1.2)
       simp only [jsonOf, dvals]
-      rw [objectShape_nokvp o (by simp [hd]), windowZ_plain _ (jsonItems_plain o enc (x :: xs) h.2)]
+      rw [objectShape_nokvp o (by simp [hd])]
       simp only [remainderOf, jvals, jvalsO_append, jvalsO, List.append_nil]
       exact hes.append hr
   | .header s body, h => by
-    simp only [plainNode] at h
+    simp only [runNode] at h
     simpa [jsonOf, dvals, jvals, jvalsO] using vals_group body h
-theorem valsItems_group : (items : List Item) → plainItems items = true →
-    (jvalsL ((jsonItems o enc items).map (·.2))).Perm (dvalsItems o enc items)
-  | [], _ => by simp [jsonItems, jvalsL, dvalsItems]
-  | .val n :: xs, h => by
-    simp only [plainItems, plainItem, Bool.and_eq_true] at h
-    simp only [jsonItems, jsonItem, List.map_append, List.map_cons, List.map_nil, List.cons_append, List.nil_append,
-      jvalsL, dvalsItems, dvalsItem]
-    exact (vals_group n h.1).append (valsItems_group xs h.2)
-  | .hdr _ _ :: _, h => by simp [plainItems, plainItem] at h
-  | .paramTok _ _ :: _, h => by simp [plainItems, plainItem] at h
-  | .opTok _ :: _, h => by simp [plainItems, plainItem] at h
-  | .mixedTok :: _, h => by simp [plainItems, plainItem] at h
-theorem valsFields_group : (fields : List Field) → plainFields fields = true →
+theorem valsItems_group : (items : List Item) → runItems items = true →
+    ∀ x ∈ items, isValItem x = true → (jvals (itemJ o enc x)).Perm (dvalsItem o enc x)
+  | [], _ => by intro x hx; simp at hx
+  | y :: ys, h => by
+    simp only [runItems, Bool.and_eq_true] at h
+    intro x hx hv
+    simp only [List.mem_cons] at hx
+    rcases hx with hx | hx
+    · subst hx
+      cases x with
+      | val n => simp only [runItem] at h; simpa [itemJ, dvalsItem] using vals_group n h.1
+      | _ => simp [isValItem] at hv
+    · exact valsItems_group ys h.2 x hx hv
+theorem valsFields_group : (fields : List Field) → runFields fields = true →
     ((jsonFields o enc fields).flatMap (fun x => jvals x.2.2)).Perm (dvalsFields o enc fields)
   | [], _ => by simp [jsonFields, dvalsFields]
   | .mk k op v :: fs, h => by
-    simp only [plainFields, plainField, Bool.and_eq_true] at h
+    simp only [runFields, runField, Bool.and_eq_true] at h
     simp only [jsonFields, jsonField, List.flatMap_cons, dvalsFields, dvalsField]
     exact (vals_group v h.1).append (valsFields_group fs h.2)
 end
@@ -506,5 +724,29 @@ theorem keys_group (o : Opts) (enc : Enc) (hd : o.dup = .group) (flag m : Bool) 
   cases rest with
   | nil => simp [remainderOf, jkeys, remKey, List.map_map, Function.comp_def, hg]
   | cons x xs => simp [remainderOf, jkeys, remKey, List.map_map, Function.comp_def, hg]
+
+/-! ### a rich instance (used by the `example`s of Props/C16) -/
+
+/-- `name = "Jåhk" core = a core = b color = rgb { 1 2 } levels = { 10 0 = 2 x > y }
+nested = { k = { yes } k = v }`: a non-ASCII string, a duplicate key at two levels, a header as a
+field value, an array that turns into a key-value list (with its `MixedContainer` marker), nested
+objects and arrays -/
+def richNode : Node :=
+  .obj false false
+    [.mk (.unquoted [110, 97, 109, 101]) none (.scalar true [74, 195, 165, 104, 107]),
+     .mk (.unquoted [99, 111, 114, 101]) none (.scalar false [97]),
+     .mk (.unquoted [99, 111, 114, 101]) none (.scalar false [98]),
+     .mk (.unquoted [99, 111, 108, 111, 114]) none
+       (.header [114, 103, 98] (.arr false [.val (.scalar false [49]), .val (.scalar false [50])])),
+     .mk (.unquoted [108, 101, 118, 101, 108, 115]) none
+       (.arr true [.val (.scalar false [49, 48]), .mixedTok, .val (.scalar false [48]), .opTok .eq,
+         .val (.scalar false [50]), .val (.scalar false [120]), .opTok .gt, .val (.scalar false [121])]),
+     .mk (.unquoted [110, 101, 115, 116, 101, 100]) none
+       (.obj false false
+         [.mk (.unquoted [107]) none (.arr false [.val (.scalar false [121, 101, 115])]),
+          .mk (.unquoted [107]) none (.scalar false [118])] [])] []
+
+def richDoc : Doc :=
+  ⟨match richNode with | .obj _ _ fields _ => fields | _ => [], false, []⟩
 
 end Jomini.Json
